@@ -85,7 +85,7 @@ func observable(ex *rt.Exchange) map[string]string {
 	sort.Strings(auth)
 	o["auth"] = strings.Join(auth, ";")
 	if ex.WireReq != nil {
-		o["wire_req"] = ex.WireReq.Method + " " + ex.WireReq.URL + " " + j(ex.WireReq.Header) + " " + string(ex.WireReq.Body)
+		o["wire_req"] = stripBoundary(ex.WireReq, ex.WireReq.Method+" "+ex.WireReq.URL+" "+j(ex.WireReq.Header)+" "+string(ex.WireReq.Body)) // multipart.go
 	}
 	if ex.WireResp != nil {
 		o["status"] = fmt.Sprint(ex.WireResp.Status)
